@@ -123,6 +123,7 @@ FullSyncMove<SlotType, BUFFER_SIZE> {
         // `head` is sampled first: `tail` never falls behind a `head` sampled earlier, so the difference cannot go "negative" (and wrap to ~2^32)
         // when elements are published & consumed between the two (lock-free) reads; it is also never reported above the capacity
         let head = unsafe { *self.head.get() };
+        #[cfg(feature = "verif")] crate::verif::yield_point_r("fsm.len.second-read");
         let tail = unsafe { *self.tail.get() };
         (tail.overflowing_sub(head).0 as usize).min(BUFFER_SIZE)
     }
